@@ -1,7 +1,7 @@
 import Ebu.Spec.Flow
 import Ebu.Generated.Consts
 import Ebu.Generated.SqlFacts
-import Ebu.Props.C03
+import Ebu.Props.C03Facts
 import Ebu.Spec.Log
 import Ebu.Proofs.Log
 /-!
